@@ -45,7 +45,9 @@ def run_split(case):
         return {"verdict": None, "cov": {"discarded_ub": 1}}
     nmod = rng.randrange(2, min(4, n_decl) + 1)
     mods, info = gen_prog.split_modules(prog, rng, nmod)
-    files = [(fn, gen_prog.module_source(decls, imps)) for fn, decls, imps in mods]
+    # every second program has its import lines scattered among (and after) the other declarations
+    scatter = rng if i % 2 else None
+    files = [(fn, gen_prog.module_source(decls, imps, scatter=scatter)) for fn, decls, imps in mods]
     orders = list(itertools.permutations(range(len(files))))
     if len(orders) > 6 and i % 10:
         rng.shuffle(orders)
